@@ -2,7 +2,7 @@
 import operator
 
 from .. import si
-from .common import View, Violation
+from .common import View, Violation, INTERNAL_ERRORS
 
 PROP = 'C16'
 VAR = {'encoder': ('angular position', 'AngularPosition'),
@@ -63,6 +63,13 @@ def check(scn, H, view=None):
             continue
         d = ep['dump']
         for seg in ep['segments']:
+            if seg['stop'] is not None and seg['exc'] is not None and \
+                    seg['exc'][0] in INTERNAL_ERRORS:
+                # a run with a (legal) stop condition must end at an
+                # instant, not die inside the library
+                viol(f"run-with-stop-raises/{seg['exc'][0]}",
+                     message=seg['exc'][1], epoch=ep['index'],
+                     instants_recorded=seg['i1'] - seg['i0'])
             if seg['stop'] is None or seg['exc'] is not None:
                 continue
             ss = scn['stops'][seg['stop']]
